@@ -32,7 +32,8 @@ pub const NEWOWNER: &str = "newowner";
 pub const CREATOR: &str = "creator";
 pub const DAO: &str = "daoaddr";
 pub const USERS: [&str; 3] = ["alice", "bobby", "carol"];
-pub const NATIVES: [&str; 4] = ["uwhale", "uusdc", "uatom", "uosmo"];
+// the last denom extends another one as a prefix (registry keys / pagination cursors built from asset bytes)
+pub const NATIVES: [&str; 4] = ["uwhale", "uusdc", "uatom", "uusdcx"];
 pub const NATIVE_DECIMALS: [u8; 4] = [6, 6, 8, 18];
 pub const CW20_SYMBOLS: [&str; 4] = ["TKA", "TKB", "TKC", "TKD"];
 pub const CW20_DECIMALS: [u8; 4] = [6, 8, 18, 6];
